@@ -543,6 +543,13 @@ func C05(ctx *core.Ctx) error {
 	cov.Set("alteration_reached", applied)
 	cov.Set("alteration_changed_content", changed)
 	cov.Set("cases_with_an_honest_error", detected)
+	// data-level conformance: real ECDSA key generations on toy curves with one altered share / opening / commitment;
+	// TLC predicts from the dealt polynomials who must abort and whom it must name (KeygenData.tla)
+	if ctx.Replay == "" && only == "" {
+		if err := kdPhase(ctx, cov, "C05"); err != nil {
+			return err
+		}
+	}
 	if only != "" {
 		return core.Inconcl("filtered development run (VERIF_C05_ONLY=%s): %d cases, %d violations", only, len(cases), len(ctx.Violations()))
 	}
